@@ -136,7 +136,8 @@ def _case(draw, tier):
     for p in list(desc["files"]):
         pass
     b = draw(st.sampled_from(["slurm", "slurm", "sge", "lsf"]))
-    ftype = draw(st.sampled_from(["cmdfail", "cmdfail", "queryfail", "kill_between", "kill_between", "kill_write", "kill_write"]))
+    ftype = draw(st.sampled_from(["cmdfail", "cmdfail", "queryfail", "kill_between", "kill_between", "kill_write", "kill_write"]
+                                 + (["blockscript"] if b == "lsf" else [])))
     fault = {"type": ftype}
     if ftype == "cmdfail":
         fault["k"] = draw(st.integers(1, 5))
@@ -145,14 +146,15 @@ def _case(draw, tier):
         fault["sticky"] = draw(st.booleans())
     elif ftype == "queryfail":
         fault["cmd"] = draw(st.sampled_from(QUERY[b]))
-        fault["kind"] = draw(st.sampled_from(["exit1", "stderr-error", "garbage0", "garbage0"]))
+        fault["kind"] = draw(st.sampled_from(["exit1", "stderr-error", "garbage0", "garbage0", "partial-error"]))
         fault["after_first"] = draw(st.booleans())
-    elif ftype == "kill_between":
+    elif ftype in ("kill_between", "blockscript"):
         fault["k"] = draw(st.integers(1, 4))
     else:
         fault["frac"] = draw(st.integers(0, 1000))  # position in [1..M] as a fraction
     return {"desc": desc, "invoke": draw(gen.invoke()), "backend": b, "hashing": draw(st.booleans()), "fault": fault,
             "second_round": draw(st.booleans()), "earlier_purged": draw(st.sampled_from([False, False, True])),
+            "first_wave": draw(st.sampled_from([1, 2, 3])), "acct": draw(st.sampled_from([True, True, False])),
             "start_some": draw(st.booleans()),
             # Slurm: the accounting database has not caught up with the jobs accepted a moment ago (only the live
             # queue knows them when the next invocation asks)
@@ -185,12 +187,15 @@ def enumerate_cases(tier):
             for kind in ("exit1", "stderr-error", "garbage"):
                 yield {"desc": FIXED, "backend": b, "hashing": hashing, "fault": {"type": "cmdfail", "k": k, "kind": kind},
                        "second_round": False}
+    for k in (1, 2, 3):
+        yield {"desc": FIXED, "backend": "lsf", "hashing": k == 2, "fault": {"type": "blockscript", "k": k}, "second_round": False}
     # a status query that fails or answers nonsense while jobs of an earlier invocation are in flight
     for b in ("slurm", "sge", "lsf"):
         for cmd in QUERY[b]:
-            for kind in ("exit1", "stderr-error", "garbage0"):
-                yield {"desc": FIXED, "backend": b, "hashing": False, "fault": {"type": "queryfail", "cmd": cmd, "kind": kind},
-                       "second_round": True, "earlier_purged": False}
+            for kind in ("exit1", "stderr-error", "garbage0", "partial-error"):
+                for acct in ((True, False) if b == "slurm" else (True,)):
+                    yield {"desc": FIXED, "backend": b, "hashing": False, "fault": {"type": "queryfail", "cmd": cmd, "kind": kind},
+                           "second_round": True, "earlier_purged": False, "acct": acct, "first_wave": 2}
     # an interruption in a project that already has history: jobs of an earlier invocation finished and were purged
     for b in ("slurm", "sge", "lsf"):
         for k in (1, 2):
@@ -226,6 +231,8 @@ def run_case(case):
     desc, b = case["desc"], case["backend"]
     fault = case["fault"]
     cfg = {"use_spec_hashes": True} if case["hashing"] else {}
+    if b == "slurm" and case.get("acct") is False:
+        cfg["backend.slurm.accounting_enabled"] = False  # only the live queue knows the jobs
     viols, labels = [], {"backend-" + b, "fault-" + fault["type"]}
     sub = SUBMIT[b]
     with project.Project(desc, backend=b, config=cfg, invoke=case.get("invoke")) as proj:
@@ -234,10 +241,10 @@ def run_case(case):
         # everything stale: sources exist, outputs missing
         proj.set_files({p: (None if p in R.producers else 1) for p in desc["files"]})
         sim = proj.sim
-        S = hist.Session(proj, desc, hashing=case["hashing"])
+        S = hist.Session(proj, desc, hashing=case["hashing"], accounting=not (b == "slurm" and case.get("acct") is False))
         if case["second_round"]:
             # an earlier, clean invocation: part of the workflow is already in flight
-            r0, new0 = S.run(sorted(names)[:1])
+            r0, new0 = S.run(sorted(names)[: case.get("first_wave", 1)])
             if r0.code != 0:
                 raise hist.SubjectFailure("setup run failed: " + r0.brief())
             labels.add("earlier-invocation")
@@ -300,6 +307,21 @@ def run_case(case):
                 # the killed submission command never reached the scheduler's job table
                 if r.code != -signal.SIGKILL:
                     labels.add("kill-missed")
+            else:
+                r = proj.gwf_sub(["run"])
+                interrupted = False
+        elif ftype == "blockscript":
+            # an exception in the middle of the run that is not a scheduler failure: the LSF backend keeps a copy
+            # of every job script next to the logs, and the place of the k-th one is taken by a directory
+            k = min(fault["k"], max(1, n_planned))
+            pos = k - 1
+            if b == "lsf" and n_planned:
+                victim = [n_ for n_, _ in subs][k - 1]
+                os.makedirs(proj.path(f".gwf/logs/{victim}.sh"), exist_ok=True)
+                r = proj.gwf_sub(["run"])
+                os.rmdir(proj.path(f".gwf/logs/{victim}.sh"))
+                if r.code == 0:
+                    interrupted = False
             else:
                 r = proj.gwf_sub(["run"])
                 interrupted = False
